@@ -82,3 +82,66 @@ CONTRACTS += [
         },
         ensures=RP_POST, raises={}),
 ]
+
+CONTRACTS += [
+    Contract(
+        id='symtable.regSym', file=FILE, func='SymtableCodeGen.regSym', serves=['C01', 'C03'],
+        params={'self': SELF, 'symbol': Str, 'symProps': MapOf(), 'parents': Any},
+        defs=RP_DEFS, requires=[PP_WF, SAT, 'is_tuple(parents) or is_list(parents)'],
+        returns=NoneT, assigns=RP_ASSIGNS,
+        ensures={
+            'duplicate_is_rejected': 'implies(symbol in old(self._out) or symbol in old(self._postponedSyms), raised)',
+            'saturated': 'implies(not raised, %s)' % SAT,
+            'still_well_formed': 'implies(not raised, %s)' % PP_WF,
+            'registered_or_postponed': 'implies(not raised, (symbol in self._out and same(self._out[symbol], symProps)) or '
+                                       '(symbol in self._postponedSyms and same(self._postponedSyms[symbol][1], symProps)))',
+            'nothing_registered_is_lost': 'implies(not raised, forall(old(self._out), lambda k, v: k in self._out and same(self._out[k], v)))',
+            'postponed_symbols_stay_accounted': 'implies(not raised, forall(old(self._postponedSyms), lambda k, v: '
+                '(k in self._postponedSyms and same(self._postponedSyms[k], v)) or k in self._out))',
+            'records_come_from_declarations': 'implies(not raised, forall(self._out, lambda k, v: '
+                '(k in old(self._out) and same(v, old(self._out)[k])) or (k == symbol and same(v, symProps)) or '
+                '(k in old(self._postponedSyms) and same(v, old(self._postponedSyms)[k][1]))))',
+        },
+        raises={'PySmiSemanticError': 'symbol in old(self._out) or symbol in old(self._postponedSyms)'}),
+    Contract(
+        id='symtable.genOid', file=FILE, func='SymtableCodeGen.genOid', serves=['C01'],
+        params={'self': SELF, 'data': Lst(SeqOf()), 'classmode': Any},
+        inline=['SymtableCodeGen.transOpers'],
+        requires=['forall(data[0], lambda el: is_str(el) or is_num(el) or (is_tuple(el) and len(el) == 2 and is_num(el[1])))'],
+        defs={'SYMT': 'lambda el: ite(is_str(el), (TRANS(el), self._importMap.get(TRANS(el), self.moduleName[0])), '
+                      'ite(is_num(el), el, el[1]))'},
+        loops={1: {'snap': {'PO0': 'self._parentOids'},
+                   'invariant': ['is_tuple(out)', 'len(out) == _i',
+                                 'forall(seq(out), lambda j, x: same(x, SYMT(data[0][j])))',
+                                 'forall(seq(out), lambda x: is_num(x) or (is_tuple(x) and len(x) == 2))',
+                                 'forall(PO0, lambda p: p in self._parentOids)',
+                                 'forall(lambda j: implies(0 <= j and j < _i and is_str(data[0][j]), '
+                                 'TRANS(data[0][j]) in self._parentOids))']}},
+        returns=Any, assigns=['self._parentOids'],
+        ensures={
+            'same_length': 'implies(not raised, is_tuple(result) and len(result) == len(data[0]))',
+            'parts_as_written': 'implies(not raised, forall(seq(result), lambda j, x: same(x, SYMT(data[0][j]))))',
+            'parts_are_numbers_or_name_module_pairs': 'implies(not raised, forall(seq(result), lambda x: is_num(x) or '
+                                                      '(is_tuple(x) and len(x) == 2)))',
+            'named_parents_recorded': 'implies(not raised, forall(lambda j: implies(0 <= j and j < len(data[0]) and '
+                                      'is_str(data[0][j]), TRANS(data[0][j]) in self._parentOids)))',
+            'parent_set_only_grows': 'forall(old(self._parentOids), lambda p: p in self._parentOids)',
+        },
+        raises={}),
+]
+
+
+def _trans(it, args, kwargs):
+    """TRANS(name): SymtableCodeGen.transOpers - Python keywords get the prefix pysmi_, hyphens become underscores"""
+    import keyword
+    v = args[0]
+    if isinstance(v, str):
+        return (('pysmi_' + v) if keyword.iskeyword(v) else v).replace('-', '_')
+    t = pv.as_term_str(v)
+    iskw = z3.Or(*[t == z3.StringVal(k) for k in B.PY312_KEYWORDS])
+    pref = z3.If(iskw, z3.Concat(z3.StringVal('pysmi_'), t), t)
+    B.replace_facts(it, pref, '-', '_')
+    return SStr(B.py_replace(pref, z3.StringVal('-'), z3.StringVal('_')))
+
+
+B.SPEC_FUNCS['TRANS'] = _trans
